@@ -25,7 +25,8 @@ C5 == MkTree({<<"pkg">>, <<"q">>}, (<<"a">> :> 5) @@ (<<"pkg","b">> :> 4) @@ (<<
 MCInitTreesC2 == {C4, C5}
 MCUniverse2 == { <<"a">>, <<"b">>, <<"pkg">>, <<"q">>, <<"pkg","b">>, <<"q","b">> }
 
-MCUniverse == { <<"a">>, <<"b">>, <<"pkg">>, <<"pkg","i">>, <<"pkg","b">> }
+\* "t" is rendered as a non-Python file (t.txt): a module can be moved out of sight and back
+MCUniverse == { <<"a">>, <<"b">>, <<"pkg">>, <<"pkg","i">>, <<"pkg","b">>, <<"t">> }
 
 \* one behaviour per state: the actions that led here and what the spec says
 \* about this state (the harness compares warm vs fresh answers here)
